@@ -904,8 +904,8 @@ class Configuration(object):
         #   behave --color auto features/some.feature   # NO_PROBLEM
         if "--color" in command_args:
             color_arg_pos = command_args.index("--color")
-            next_arg = command_args[color_arg_pos + 1]
-            if os.path.exists(next_arg):
+            has_next_arg = color_arg_pos + 1 < len(command_args)
+            if has_next_arg and os.path.exists(command_args[color_arg_pos + 1]):
                 command_args.insert(color_arg_pos + 1, "--")
 
         if verbose is None:
